@@ -52,8 +52,6 @@ theorem splitLoop_eq (k bs : Nat) (d : Bytes) :
 theorem slice_length (d : Bytes) (bs i : Nat) : (slice d bs i).length = bs := by
   simp only [slice, List.length_append, List.length_take, zeros_length]; omega
 
-/-! ### encode -/
-
 /-- the fragment the specification describes for payload `p` at index `idx`. -/
 def specFragment (env : Env) (i : Inst) (len bs : Nat) (p : Bytes) (idx : Nat) : Bytes :=
   (specHeader env i idx len bs p).bytes ++ p
@@ -61,15 +59,107 @@ def specFragment (env : Env) (i : Inst) (len bs : Nat) (p : Bytes) (idx : Nat) :
 /-- payload size of every fragment of an encode of `len` bytes. -/
 def blockSize (i : Inst) (len : Nat) : Nat := alignedSize i len / i.k
 
+/-! ### the size guard -/
+
+/-- an input the guard lets through is shorter than `INT_MAX` (whatever the instance). -/
+theorem encodeTooLarge_false_lt {i : Inst} {len : Nat} (h : encodeTooLarge i len = false) :
+    len < 2 ^ 31 := by
+  unfold encodeTooLarge at h
+  simp only [decide_eq_false_iff_not] at h
+  omega
+
+/-- the guard refuses: `-EINVALIDPARAMS`, whatever the backend. -/
+theorem encode_of_tooLarge (env : Env) (be : Backend) (i : Inst) (data : Bytes)
+    (h : encodeTooLarge i data.length = true) : encode env be i data = .error (.rc (-EINVALIDPARAMS)) := by
+  unfold encode
+  rw [if_pos h]; rfl
+
+/-- a successful encode passed the guard. -/
+theorem encodeTooLarge_false_of_ok {env : Env} {be : Backend} {i : Inst} {data : Bytes} {frags : List Bytes}
+    (h : encode env be i data = .ok frags) : encodeTooLarge i data.length = false := by
+  cases hg : encodeTooLarge i data.length with
+  | false => rfl
+  | true => rw [encode_of_tooLarge env be i data hg] at h; cases h
+
+/-- a successful encode: the input is shorter than `INT_MAX`. -/
+theorem encode_ok_length_lt {env : Env} {be : Backend} {i : Inst} {data : Bytes} {frags : List Bytes}
+    (h : encode env be i data = .ok frags) : data.length < 2 ^ 31 :=
+  encodeTooLarge_false_lt (encodeTooLarge_false_of_ok h)
+
+/-- the guard in closed form when the alignment multiple `k * (w / 8)` is positive. -/
+theorem alignedSize_one (i : Inst) (hk : 0 < i.k) (hw : 8 ≤ i.w) : alignedSize i 1 = i.k * (i.w / 8) := by
+  unfold alignedSize alignedSizeW
+  simp only
+  have he : 0 < i.w / 8 := Nat.div_pos hw (by decide)
+  have ham : 0 < i.k * (i.w / 8) := Nat.mul_pos hk he
+  rw [Nat.add_sub_cancel_left, Nat.div_self ham, Nat.one_mul]
+
+/-- inputs with the old slack `2^12` pass the guard whenever one aligned unit plus a header fits the slack
+    (every instance `create` returns: `k ≤ 32`, `w ≤ 64`, so at most 256 + 80 bytes). -/
+theorem encodeTooLarge_false_of_small {i : Inst} {len : Nat} (ha : alignedSize i 1 + Hdr.size ≤ 4095)
+    (hlen : len < 2 ^ 31 - 2 ^ 12) : encodeTooLarge i len = false := by
+  unfold encodeTooLarge
+  simp only [decide_eq_false_iff_not]
+  omega
+
+/-- one aligned unit plus a header is at most 336 bytes for the fields `create` produces. -/
+theorem alignedSize_one_created (i : Inst) (hk : 0 < i.k) (hk2 : i.k ≤ 32) (hw : 8 ≤ i.w) (hw2 : i.w ≤ 64) :
+    alignedSize i 1 + Hdr.size ≤ 336 := by
+  rw [alignedSize_one i hk hw]
+  have he8 : i.w / 8 ≤ 8 := by omega
+  have := Nat.mul_le_mul hk2 he8
+  simp only [Hdr.size]
+  omega
+
+/-- the size guard of `encode` in closed form.  (`hfit` cannot be dropped: the model's subtraction is
+    truncated, so with `k * (w / 8) + 80 > INT_MAX` the empty input would pass; see the example below.
+    `create` only returns `k ≤ 32`, `w ≤ 64`.) -/
+theorem encodeTooLarge_false_iff (i : Inst) (len : Nat) (hk : 0 < i.k) (hw : 8 ≤ i.w)
+    (hfit : i.k * (i.w / 8) + 80 ≤ 2147483647) :
+    encodeTooLarge i len = false ↔ len + i.k * (i.w / 8) + 80 ≤ 2147483647 := by
+  unfold encodeTooLarge
+  rw [alignedSize_one i hk hw, decide_eq_false_iff_not]
+  simp only [Hdr.size]
+  omega
+
+/-- the closed form for every non-empty input (no bound on `k`, `w` needed). -/
+theorem encodeTooLarge_false_iff_pos (i : Inst) (len : Nat) (hk : 0 < i.k) (hw : 8 ≤ i.w) (hlen : 0 < len) :
+    encodeTooLarge i len = false ↔ len + i.k * (i.w / 8) + 80 ≤ 2147483647 := by
+  unfold encodeTooLarge
+  rw [alignedSize_one i hk hw, decide_eq_false_iff_not]
+  simp only [Hdr.size]
+  omega
+
+example : encodeTooLarge { beId := 0, beVer := 0, k := 2147483648, m := 0, w := 8, ct := 0 } 0 = false := by decide
+
+/-- the closed form for the fields `create` produces. -/
+theorem encodeTooLarge_false_iff_created (i : Inst) (len : Nat) (hk : 0 < i.k) (hk2 : i.k ≤ 32)
+    (hw : 8 ≤ i.w) (hw2 : i.w ≤ 64) :
+    encodeTooLarge i len = false ↔ len + i.k * (i.w / 8) + 80 ≤ 2147483647 := by
+  have := alignedSize_one_created i hk hk2 hw hw2
+  rw [alignedSize_one i hk hw] at this
+  simp only [Hdr.size] at this
+  exact encodeTooLarge_false_iff i len hk hw (by omega)
+
+/-- the hypothesis the theorems carried before `encode` had its guard (`len < 2^31 - 2^12`) implies
+    the guard lets the input through, for the fields `create` produces. -/
+theorem encodeTooLarge_false_of_created (i : Inst) (len : Nat) (hk : 0 < i.k) (hk2 : i.k ≤ 32)
+    (hw : 8 ≤ i.w) (hw2 : i.w ≤ 64) (hlen : len < 2 ^ 31 - 2 ^ 12) : encodeTooLarge i len = false :=
+  encodeTooLarge_false_of_small (by have := alignedSize_one_created i hk hk2 hw hw2; omega) hlen
+
+/-! ### what encode returns -/
+
 theorem encode_spec (env : Env) (be : Backend) (i : Inst) (data : Bytes) (frags : List Bytes)
     {bsOK : Nat → Prop} (hbe : EncodeOK be i.k i.m bsOK) (hbs : bsOK (blockSize i data.length))
-    (hlen : data.length < 2 ^ 31)
     (h : encode env be i data = .ok frags) :
     ∃ par : List Bytes, par.length = i.m ∧ (∀ x ∈ par, x.length = blockSize i data.length) ∧
       frags = ((splitLoop i.k (blockSize i data.length) data ++ par).zipIdx.map fun (p, idx) =>
         specFragment env i data.length (blockSize i data.length) p idx) := by
+  have hlen : data.length < 2 ^ 31 := encode_ok_length_lt h
+  have hg := encodeTooLarge_false_of_ok h
   generalize hbs' : blockSize i data.length = bs
   unfold encode at h
+  rw [if_neg (by rw [hg]; exact Bool.false_ne_true)] at h
   have hbs2 := hbs'
   unfold blockSize at hbs2
   simp only [hbs2] at h
